@@ -132,6 +132,10 @@ def failing_calls(ctx, conv):
 
 
 def run_layout_case(ctx, conv, R, rng, size, fields, used, values=None, tag="layout"):
+    import collections
+
+    from vmon import harness
+
     if rng.random() < 0.05:
         failing_calls(ctx, conv)
     names = ["f%d" % i for i in range(len(fields))]
@@ -157,7 +161,8 @@ def run_layout_case(ctx, conv, R, rng, size, fields, used, values=None, tag="lay
                 nontrivial = True
         else:
             k, off, n, unit = f
-            check[name] = (k, off, n) if rng.random() < 0.85 else [k, off, n]
+            kind_str = k if rng.random() < 0.7 else harness.fresh_str(k)  # the kind as a literal, or a string made at run time
+            check[name] = (kind_str, off, n) if rng.random() < 0.85 else [kind_str, off, n]
             vals[name] = bytearray(rng.getrandbits(8) for _ in range(n * unit))
     prior = bytearray(rng.getrandbits(8) for _ in range(size))
     for pos in used:
@@ -179,8 +184,17 @@ def run_layout_case(ctx, conv, R, rng, size, fields, used, values=None, tag="lay
     # encode, in two different field orders
     order = list(names)
     buf1 = bytearray(prior)
+    # values as callers have them: plain ints, bool for one-bit fields, members of an int subclass (enum.IntEnum style)
+    given = dict(vals)
+    if rng.random() < 0.2:
+        for name, f in zip(names, fields):
+            if f[0] == "m":
+                given[name] = bool(vals[name]) if f[3] == 1 else harness.IntSub(vals[name])
+        ctx.count("layouts_with_int_subclass_values")
+    # ... in any Mapping (the notation's own type annotation), not only a dict
+    as_mapping = rng.choice([dict, dict, dict, collections.UserDict, collections.OrderedDict, lambda d: collections.ChainMap(d)])
     try:
-        conv.encode_dict({k: vals[k] for k in order}, {k: check[k] for k in order}, buf1)
+        conv.encode_dict(as_mapping({k: given[k] for k in order}), {k: check[k] for k in order}, buf1)
     except Exception as e:  # noqa: BLE001
         ctx.fail("C10:encode.raises", "encode_dict raised %s" % type(e).__name__, wit, exc=e)
         return
@@ -200,8 +214,10 @@ def run_layout_case(ctx, conv, R, rng, size, fields, used, values=None, tag="lay
     except Exception as e:  # noqa: BLE001
         ctx.fail("C10:decode.raises", "decode_bits raised %s" % type(e).__name__, wit, exc=e)
         return
-    out2 = {}
+    out2 = rng.choice([dict, dict, collections.UserDict, collections.OrderedDict, lambda: collections.ChainMap({})])()
     conv.decode_bits(ref, {k: check[k] for k in order}, out2)
+    ctx.add("mapping_types", type(out2).__name__)
+    out2 = dict(out2)
     ctx.count("decode_calls", 2)
     for name, f in zip(names, fields):
         if f[0] == "m":
